@@ -20,6 +20,8 @@ pub fn comp<'a>(letter: &str, req: PeerId, other: PeerId) -> Protocol<'a> {
         "ip6x" => Protocol::Ip6(Ipv6Addr::new(0x2001, 0xdb8, 0, 0, 0, 0, 0, 9)),
         "dns4" => Protocol::Dns4("victim.example".into()),
         "dns" => Protocol::Dns("victim.example".into()),
+        "dns6" => Protocol::Dns6("victim.example".into()),
+        "dnsa" => Protocol::Dnsaddr("victim.example".into()),
         "tcp" => Protocol::Tcp(4001),
         "udp" => Protocol::Udp(4001),
         "quic" => Protocol::QuicV1,
@@ -82,7 +84,7 @@ fn record(out: &mut Out, obs_letters: &[&str], dem_letters: &[Vec<&str>], req: P
     out.ev(rec);
 }
 
-const ALPHA: [&str; 11] = ["ip4o", "ip4x", "ip6x", "dns4", "tcp", "udp", "quic", "p2pr", "p2px", "circ", "ip4y"];
+const ALPHA: [&str; 15] = ["ip4o", "ip4x", "ip6x", "ip6o", "dns4", "dns", "dns6", "dnsa", "tcp", "udp", "quic", "p2pr", "p2px", "circ", "ip4y"];
 
 pub fn main(a: &vcommon::Args) {
     vcommon::quiet_panics();
